@@ -409,8 +409,8 @@ theorem invB_step (s : Sys) (i : Nat) (a : Act) (h : InvA s) (g : InvB s) : InvB
         (sel.flatMap s.content) _ rfl rfl rfl rfl (fun n hn => (List.mem_filter.mp hn).1) ?_
       intro n hn
       have := (List.all_eq_true.mp hpre) n hn
-      simp only [Bool.and_eq_true, List.contains_eq_mem, decide_eq_true_eq] at this
-      exact ⟨this.1, fun hk => by simpa [hn] using (List.mem_filter.mp hk).2⟩
+      simp only [List.contains_eq_mem, decide_eq_true_eq] at this
+      exact ⟨this, fun hk => by simpa [hn] using (List.mem_filter.mp hk).2⟩
     · exact invB_reload s i h g
   | save clear => exact invB_save s i clear h g
   | obsolete => exact invB_obsolete s i g
